@@ -2151,10 +2151,16 @@ func (r *Raft) preElectSelf() <-chan *preVoteResult {
 
 // persistVote is used to persist our vote for safety.
 func (r *Raft) persistVote(term uint64, candidate []byte) error {
-	if err := r.stable.SetUint64(keyLastVoteTerm, term); err != nil {
+	// Write the candidate before the term: the stored pair is only consulted
+	// when the stored term equals the term of a request, so if the second
+	// write fails (or we crash between the two) the new candidate is paired
+	// with an older term that is never consulted again, instead of the new
+	// term being paired with the previous candidate, who could then be
+	// granted this term's vote without the log check.
+	if err := r.stable.Set(keyLastVoteCand, candidate); err != nil {
 		return err
 	}
-	if err := r.stable.Set(keyLastVoteCand, candidate); err != nil {
+	if err := r.stable.SetUint64(keyLastVoteTerm, term); err != nil {
 		return err
 	}
 	return nil
